@@ -261,17 +261,30 @@ class _SessionRegistry:
         forged token could not have valid AAD in the first place.
         """
         now = time.time()
+        expired: _SessionEntry | None = None
         with self._lock:
             entry = self._entries.get(session_id)
             if entry is None:
                 return None
             if entry.expires_at < now:
                 del self._entries[session_id]
-                self._close_state_suppressed(entry.state)
+                expired = entry
+            elif entry.principal_key != principal_key:
                 return None
-            if entry.principal_key != principal_key:
-                return None
+        if expired is not None:
+            self._close_entry(expired)
+            return None
         return entry
+
+    def is_live(self, session_id: bytes, entry: _SessionEntry) -> bool:
+        """Whether *entry* is still the registered session for *session_id*.
+
+        A caller that looked an entry up and then waited for its per-session
+        lock re-checks with this before dispatching: the session may have been
+        closed (DELETE, in-method close, expiry, shutdown) in between.
+        """
+        with self._lock:
+            return self._entries.get(session_id) is entry
 
     def close(self, session_id: bytes) -> bool:
         """Remove a session and invoke ``state.close()``. Returns ``True`` on hit."""
@@ -279,8 +292,18 @@ class _SessionRegistry:
             entry = self._entries.pop(session_id, None)
         if entry is None:
             return False
-        self._close_state_suppressed(entry.state)
+        self._close_entry(entry)
         return True
+
+    def _close_entry(self, entry: _SessionEntry) -> None:
+        """Run the close hook of an entry already removed from the registry.
+
+        Taken under the per-session lock so the hook never runs while a request
+        is dispatching against the session; the registry lock must not be held
+        (dispatch takes the per-session lock first, then the registry lock).
+        """
+        with entry.lock:
+            self._close_state_suppressed(entry.state)
 
     def drain_expired(self, now: float | None = None) -> int:
         """Evict any sessions past their TTL. Returns the eviction count."""
@@ -290,7 +313,7 @@ class _SessionRegistry:
             expired_sids = [sid for sid, e in self._entries.items() if e.expires_at < now]
             expired = [self._entries.pop(sid) for sid in expired_sids]
         for entry in expired:
-            self._close_state_suppressed(entry.state)
+            self._close_entry(entry)
         return len(expired)
 
     def shutdown(self) -> None:
@@ -304,7 +327,7 @@ class _SessionRegistry:
             entries = list(self._entries.values())
             self._entries.clear()
         for entry in entries:
-            self._close_state_suppressed(entry.state)
+            self._close_entry(entry)
 
     def __len__(self) -> int:
         with self._lock:
@@ -534,6 +557,16 @@ class _StickyMiddleware:
             # Released in process_response. Same-session concurrent calls
             # serialize here; different-session calls run in parallel.
             entry.lock.acquire()
+            if not self._registry.is_live(session_id, entry):
+                # Closed between the lookup and the lock acquisition.
+                entry.lock.release()
+                _set_error_response(
+                    resp,
+                    SessionLostError("session not found, expired, or principal mismatch"),
+                    status_code=HTTPStatus.INTERNAL_SERVER_ERROR,
+                )
+                resp.complete = True
+                return
             req.context.sticky_entry = entry
             req.context.sticky_entry_lock_acquired = True
             session_id_hex = session_id.hex()
@@ -608,13 +641,10 @@ class _StickyMiddleware:
             session_id = bytes.fromhex(sc.session_id)
         except ValueError:
             return False
-        # Release the per-session RLock before removal so process_response's
-        # release doesn't double-unlock.
-        entry = getattr(req.context, "sticky_entry", None)
-        if entry is not None and getattr(req.context, "sticky_entry_lock_acquired", False):
-            with contextlib.suppress(RuntimeError):
-                entry.lock.release()
-            req.context.sticky_entry_lock_acquired = False
+        # The per-session RLock stays held until process_response: this request
+        # is still dispatching against the session, so no other request (and no
+        # other closer) may get at it before the method returns.  The close hook
+        # re-enters the RLock on this thread.
         hit = self._registry.close(session_id)
         # Clear the contextvar so subsequent ctx.session reads return None.
         sc_token = getattr(req.context, "sticky_session_token", None)
